@@ -405,6 +405,72 @@ def r5_degrees(ctx, F):
         ctx.violation("declared-assertion-counts", fn.loc(), "AirContext::new_multi_segment receives assertion counts %s, expected (%d, %d)" % ((v3, v4) if mk else None, nmain, naux))
 
 
+def r6_overflow_boundaries(ctx, F):
+    """deep inputs/outputs: the boundary values the AIR asserts for the stack overflow table column equal what the processor's
+    table contains - initially (OverflowTable::new_with_inputs vs get_overflow_table_init) and finally (rows left in the table,
+    reported through append_into / get_addrs / StackOutputs::from_elements, vs get_overflow_table_final); and the initial
+    depth / overflow address of Stack::new equal the first-step assertions"""
+    from . import rules_c02
+    ot = F.adt(r"^miden_processor::stack::overflow::OverflowTable$")
+    row = F.adt(r"^miden_processor::stack::overflow::OverflowTableRow$")
+    of = [f["name"] for f in ot["variants"][0]["fields"]]
+    rf = [f["name"] for f in row["variants"][0]["fields"]]
+    tv = F.fn(r"OverflowTableRow::to_value$")
+    al = lambda: SlicePtr([Poly.var("alpha%d" % i) for i in range(16)], 0, 16)
+    for n in (1, 2, 5):
+        ctx.inst(key="init|%d-overflow-inputs" % n, nontrivial=True)
+        try:
+            I = rules_c02.interp(F)
+            ins = [Poly.var("in%d" % i) for i in range(16, 16 + n)]
+            t = I.call(F.fn(r"OverflowTable::new_with_inputs$").id, [False, SlicePtr(ins, 0, n)])
+            d = dict(zip(of, t.items))
+            prod = Poly.const(1)
+            for r in d["all_rows"].items:
+                prod = prod * I.call(tv.id, [Ptr([r], 0), al()])
+            air = I.call(F.fn(r"constraints::stack::get_overflow_table_init$").id, [al(), SlicePtr(ins, 0, n)])
+        except (Unanalysable, PanicReached) as e:
+            ctx.violation("UNANALYSABLE|overflow-init", "processor/src/stack/overflow.rs", str(e)[:300])
+            continue
+        ok = prod == air and d["num_init_rows"] == n and d["last_row_addr"] == Poly.const(-1)
+        ctx.oblig(ok)
+        if len(ctx.samples) < 3:
+            ctx.sample({"overflow_inputs": n, "processor_rows(val,clk,prev)": [[str(x) for x in r.items] for r in d["all_rows"].items], "equal_to_air_init": bool(prod == air)})
+        if not ok:
+            ctx.violation("overflow-init|%d" % n, "processor/src/stack/overflow.rs", "with %d stack inputs below position 15 the processor's overflow table starts as %s (last address %s) but the AIR asserts the column starts at %s: proving a successful execution fails"
+                          % (n, [[str(x) for x in r.items] for r in d["all_rows"].items], d["last_row_addr"], str(air)[:200]))
+    for n in (1, 3):
+        ctx.inst(key="final|%d-overflow-outputs" % n, nontrivial=True)
+        try:
+            I = rules_c02.interp(F)
+            procmodel_install(I)
+            rows = [Agg([{"val": Poly.var("v%d" % i), "clk": Poly.var("c%d" % i), "prev": Poly.var("c%d" % (i - 1)) if i else Poly.var("p0")}[x] for x in rf], "adt", row["id"], row["variants"][0]["name"]) for i in range(n)]
+            tab = Agg([{"all_rows": Agg(rows, "vec"), "active_rows": Agg(list(range(n)), "vec"), "trace": Agg([], "btreemap"), "trace_enabled": False, "num_init_rows": 0,
+                        "last_row_addr": Poly.var("c%d" % (n - 1))}[x] for x in of], "adt", ot["id"], ot["variants"][0]["name"])
+            tgt = Agg([Poly.var("t%d" % i) for i in range(16)], "vec")
+            I.call(F.fn(r"OverflowTable::append_into$").id, [Ptr([tab], 0), Ptr([tgt], 0)])
+            addrs = I.call(F.fn(r"OverflowTable::get_addrs$").id, [Ptr([tab], 0)])
+            so = I.call(F.fn(r"StackOutputs::from_elements$").id, [tgt, addrs])
+            if not (isinstance(so, Agg) and so.variant == "Ok"):
+                raise Unanalysable("StackOutputs::from_elements rejects the processor's own outputs: %s" % (so,))
+            air = I.call(F.fn(r"constraints::stack::get_overflow_table_final$").id, [al(), Ptr([so.items[0]], 0)])
+            prod = Poly.const(1)
+            for r in rows:
+                prod = prod * I.call(tv.id, [Ptr([r], 0), al()])
+        except (Unanalysable, PanicReached) as e:
+            ctx.violation("UNANALYSABLE|overflow-final", "processor/src/stack/overflow.rs", str(e)[:300])
+            continue
+        ok = isinstance(air, Poly) and air == prod
+        ctx.oblig(ok)
+        if not ok:
+            ctx.violation("overflow-final|%d" % n, "air/src/constraints/stack/mod.rs", "with %d rows left in the overflow table the AIR asserts the final column value %s but the table holds %s: outputs deeper than 16 elements cannot be proven"
+                          % (n, str(air)[:200], str(prod)[:200]))
+
+
+def procmodel_install(I):
+    from . import procmodel
+    procmodel.install_field(I)
+
+
 def const_through(fn, o):
     """evaluate an operand that is a constant or a sum of constants (checked adds)"""
     v = fn.const_of(o)
@@ -436,4 +502,5 @@ def run(ctx, F):
     ctx.run_rule("C01-R2", "conjectured security of each preset (queries, field, hash) is at least the configured level; reported level uses the proof's hasher", r2_security, F)
     ctx.run_rule("C01-R3", "prover and verifier use the same hasher/coin per hash tag; the proof is tagged with options.hash_fn()", r3_dispatch, F)
     ctx.run_rule("C01-R4", "the statement given to the prover is the executed one: inputs, outputs and program info of the trace", r4_statement, F)
+    ctx.run_rule("C01-R6", "stack overflow table boundary values: processor's initial table / final rows and reported outputs equal the AIR's init / final products (deep inputs and outputs)", r6_overflow_boundaries, F)
     ctx.run_rule("C01-R5", "declared transition-constraint degrees/counts equal the constraint polynomials'; assertion counts equal the declared ones for every statement shape; exemptions = random rows + 1", r5_degrees, F)
